@@ -56,10 +56,11 @@ var c04types = []reflect.Type{
 	reflect.TypeOf(myInt(0)),                   // 9 myInt   implements i1, any
 	reflect.TypeOf(plainT{}),                   // 10 plainT
 	reflect.TypeOf((*i3)(nil)).Elem(),          // 11 i3 (unexported method), implemented by *svcA
+	reflect.TypeOf(svcA{}),                     // 12 svcA as a value: its methods have pointer receivers, it implements none of the interfaces but interface{}
 }
 
 // concrete types a value can have (interfaces are keys only)
-var c04concrete = []int{0, 1, 2, 3, 4, 9, 10}
+var c04concrete = []int{0, 1, 2, 3, 4, 9, 10, 12}
 
 func c04value(ty, id int) interface{} {
 	switch ty {
@@ -68,7 +69,12 @@ func c04value(ty, id int) interface{} {
 	case 1:
 		return fmt.Sprintf("s%d", id)
 	case 2:
+		if id == 0 {
+			return (*svcA)(nil) // a typed nil pointer is a value like any other
+		}
 		return &svcA{id}
+	case 12:
+		return svcA{id}
 	case 3:
 		return svcB{id}
 	case 4:
@@ -94,6 +100,11 @@ func c04ident(v reflect.Value) int {
 		fmt.Sscanf(x, "s%d", &id)
 		return id
 	case *svcA:
+		if x == nil {
+			return 0
+		}
+		return x.id
+	case svcA:
 		return x.id
 	case svcB:
 		return x.id
@@ -183,13 +194,13 @@ func runC04(in *Sx) *Sx {
 				if len(sig) == 2 && sig[0] == c04types[2] && sig[1] == c04types[1] {
 					fn = fastAS(func(x *svcA, s string) int {
 						calls++
-						seen = []*Sx{I(x.id), I(c04ident(reflect.ValueOf(s)))}
+						seen = []*Sx{I(c04ident(reflect.ValueOf(x))), I(c04ident(reflect.ValueOf(s)))}
 						return 4242
 					})
 				} else if len(sig) == 2 && sig[0] == c04types[6] && sig[1] == c04types[4] {
 					fn = fastIC(func(x i1, c chan int) int {
 						calls++
-						seen = []*Sx{I(x.M1()), I(cap(c))}
+						seen = []*Sx{I(c04ident(reflect.ValueOf(x))), I(cap(c))}
 						return 4242
 					})
 				} else {
@@ -253,7 +264,10 @@ func runC04(in *Sx) *Sx {
 			var sets []*Sx
 			for i := range fields {
 				fv := st.Elem().Field(i)
-				if fields[i].PkgPath == "" && !fv.IsZero() && c04ident(fv) != 999 {
+				if fields[i].PkgPath != "" || fv.IsZero() {
+					continue
+				}
+				if id := c04ident(fv); id != 999 && id != 0 { // 0: a typed nil pointer, not told from "not set"
 					sets = append(sets, T("f", I(i), I(c04ident(fv))))
 				}
 			}
@@ -404,7 +418,11 @@ func genC04(rng *rand.Rand, n int, tier string, emit func(*Sx)) {
 			inj := rng.Intn(ninj)
 			switch r := rng.Intn(20); {
 			case r < 6:
-				ops = append(ops, T("map", I(inj), I(conc()), I(id())))
+				if rng.Intn(12) == 0 {
+					ops = append(ops, T("map", I(inj), I(2), I(0))) // Map((*svcA)(nil))
+				} else {
+					ops = append(ops, T("map", I(inj), I(conc()), I(id())))
+				}
 			case r < 9:
 				vt := []int{2, 2, 3, 9}[rng.Intn(4)]
 				target := 6
